@@ -165,6 +165,8 @@ func (cfg *Config) paramExp(pe *syntax.ParamExp) (string, error) {
 			strs = vr.indexedKeys()
 		case pe.Index != nil && vr.Kind == Associative:
 			strs = slices.Sorted(maps.Keys(vr.Map))
+		case pe.Index != nil && indexAllElements && !vr.IsSet():
+			// ${!name[@]} on an unset variable lists no keys, like an empty array.
 		case !vr.IsSet():
 			return "", fmt.Errorf("invalid indirect expansion")
 		case str == "":
